@@ -298,6 +298,14 @@ def _model(case, ctx):
     ok = np.abs(got - want) <= 1e-9 * np.abs(want) + 1e-200
     j = int(np.argmin(ok))
     ctx.check("c16.pdf-pushforward", bool(np.all(ok)), "TransformedModel.pdf is not the push-forward of the base density", point=pts[j].tolist(), got=float(got[j]), want=float(want[j]), **info)
+    # empirical cdf of a SUPPLIED sample: the fraction of its rows below the point, for sample sizes of every kind
+    # (one row, a few thousand, above 1e5 and not a multiple of 1e5)
+    for n_s in (1, 4000, [150000, 250001, 100000][int(case["sub"]) % 3]):
+        smp_s = np.asarray(tm.draw_sample(n_s, random_state=int(case["sub"]) % 1000 + 1), float)
+        ev = pts[:4]
+        got_e = np.asarray(tm.empirical_cdf(ev, sample=smp_s), float)
+        want_e = np.array([np.mean(np.all(smp_s <= e_, axis=1)) for e_ in ev])
+        ctx.check("c16.empirical-cdf", got_e.shape == want_e.shape and bool(np.allclose(got_e, want_e, rtol=1e-12, atol=1e-15)), "empirical_cdf of a supplied sample is not the fraction of its rows at or below the point", n_sample=n_s, got=got_e, want=want_e, **info)
     # integer-typed evaluation points
     Pi = np.array([[1, 4], [2, 6], [3, 7]])
     if case["variant"] == "tank":
